@@ -23,6 +23,11 @@ let handler = function
   | L [I 2; o] -> of_result (evaluate (to_opt to_str o))
   | L [I 3; o] -> of_ty (ctype (to_opt to_str o))
   | L [I 4; a; s] -> of_list of_token (lex_str (alts a) (to_str s))
+  | L [I 5; o] -> let o = to_opt to_str o in L [of_result (evaluate o); of_ty (ctype o)]
+  | L [I 6; a] ->
+      let q = quote (to_atom a) in
+      L [of_str q; of_list of_token (lex_str pENMAN_ALTS q); of_list of_token (lex_str tRIPLE_ALTS q);
+         of_result (evaluate (Some q)); of_ty (ctype (Some q))]
   | _ -> failwith "unknown command"
 
 let () = serve handler
